@@ -676,12 +676,113 @@ def run_python_literals(rep):
             break
 
 
+def run_function_signatures(rep):
+    """One name, several function sorts (permuted, same multiset of
+    parameter sorts, other arity, other result): equality of the sorts,
+    re-declaration, and application must follow the structure of the sort."""
+    import itertools
+    from io import StringIO
+    from pysmt.smtlib.parser import SmtLibParser
+    base = [B.INT, B.REAL, B.BOOL, B.BV(4), B.BV(8), G.US]
+    sigs = []
+    for ps in ([B.INT, B.REAL], [B.REAL, B.INT], [B.INT, B.INT, B.REAL],
+               [B.INT, B.REAL, B.INT], [B.REAL, B.INT, B.INT],
+               [B.BV(4), B.BV(8)], [B.BV(8), B.BV(4)], [B.INT],
+               [B.BOOL, B.INT], [B.INT, B.BOOL], [G.US, B.INT],
+               [B.INT, G.US], [B.INT, B.REAL, B.BOOL],
+               [B.BOOL, B.REAL, B.INT]):
+        for ret in (B.BOOL, B.INT, B.REAL):
+            sigs.append(B.FUN(ret, tuple(ps)))
+    pairs = list(itertools.product(range(len(sigs)), repeat=2))
+    smt = {'Bool': 'Bool', 'Int': 'Int', 'Real': 'Real'}
+
+    def smt_sort(t):
+        if t[0] == 'BV':
+            return '(_ BitVec %d)' % t[1]
+        if t[0] == 'U':
+            return t[1]
+        return smt[t[0]]
+    for k, (i, j) in enumerate(pairs):
+        if k % rep.nshards != rep.shard or rep.out_of_time():
+            continue
+        t1, t2 = sigs[i], sigs[j]
+        env = common.fresh_env()
+        mgr = env.formula_manager
+        p1, p2 = B.to_pytype(t1, env), B.to_pytype(t2, env)
+        rep.count('function_sort_pairs')
+        rep.case(key=('funsig', i, j))
+        same = (t1 == t2)
+        if (p1 == p2) != same or (same and hash(p1) != hash(p2)):
+            rep.violation('C03/function-sort-equality',
+                          '%s == %s is %r' % (p1, p2, p1 == p2),
+                          {'t1': repr(t1), 't2': repr(t2)})
+        f1 = mgr.Symbol('fsig', p1)
+        try:
+            f2 = mgr.Symbol('fsig', p2)
+            if not same:
+                rep.violation(
+                    'C03/function-redeclared-at-another-sort',
+                    'Symbol("fsig", %s) after Symbol("fsig", %s) returned a '
+                    'symbol of sort %s' % (p2, p1, f2.symbol_type()),
+                    {'t1': repr(t1), 't2': repr(t2)})
+            elif f2 is not f1:
+                rep.violation('C03/function-symbol-not-shared', 'two objects',
+                              {'t1': repr(t1)})
+        except Exception as e:
+            if same:
+                rep.violation('C03/function-redeclaration-refused',
+                              'same sort %s refused: %r' % (p1, e),
+                              {'t1': repr(t1)})
+        if B.from_pytype(f1.symbol_type()) != t1:
+            rep.violation('C03/function-symbol-sort',
+                          'symbol declared at %r reports %s' % (
+                              t1, f1.symbol_type()), {'t1': repr(t1)})
+        # application with arguments in the order of t2
+        args = [argterm(mgr, env, t, n) for n, t in enumerate(t2[2])]
+        ok = (tuple(t2[2]) == tuple(t1[2]))
+        try:
+            app = mgr.Function(f1, args)
+            if not ok:
+                rep.violation(
+                    'C03/ill-sorted-application-accepted',
+                    '%s : %s applied to arguments of sorts %s gives %s' % (
+                        f1, p1, [str(a.get_type()) for a in args], app),
+                    {'t1': repr(t1), 't2': repr(t2)})
+            elif B.from_pytype(app.get_type()) != t1[1]:
+                rep.violation('C03/application-sort', '%s : %s' % (
+                    app, app.get_type()), {'t1': repr(t1)})
+        except Exception as e:
+            if ok:
+                rep.violation(
+                    'C03/well-sorted-application-refused',
+                    '%s : %s applied to %s raised %r' % (
+                        f1, p1, [str(a.get_type()) for a in args], e),
+                    {'t1': repr(t1), 't2': repr(t2)})
+        # the same through the parser, in a fresh environment
+        env = common.fresh_env()
+        decl = lambda t: '(declare-fun fsig (%s) %s)' % (
+            ' '.join(smt_sort(x) for x in t[2]), smt_sort(t[1]))
+        text = '(declare-sort %s 0)' % G.US[1] + decl(t1) + decl(t2)
+        try:
+            SmtLibParser(env).get_script(StringIO(text))
+            accepted = True
+        except Exception:
+            accepted = False
+        rep.count('function_sort_parser_pairs')
+        if accepted and not same:
+            rep.violation('C03/parser/function-redeclared-at-another-sort',
+                          'accepted: %s' % text, {'text': text})
+
+
 def run(rep):
     M.NODE_MONITOR.install()
     if rep.shard == 0 and (not rep.only or rep.only == 'testsuite'):
         # the repository's own tests as one more workload for the
         # create_node monitor (runs beside the other shards)
         common.run_repo_tests_monitored(rep, ('C03', 'monitor'))
+    rep.share(0.1)
+    if not rep.only or rep.only == 'funsig':
+        run_function_signatures(rep)
     rep.share(0.55)
     if not rep.only or rep.only == 'matrix':
         run_matrix(rep)
